@@ -13,6 +13,11 @@ from .base import PersLandscape
 
 __all__ = ["PersLandscapeExact"]
 
+# verification hook (off unless PERSIM_VERIF=1): records when the repeated-bar shortcut of
+# `compute_landscape` fires, so that a checker can attribute a result to that code path
+import os as _os
+_VERIF_TRACE = [] if _os.environ.get("PERSIM_VERIF") == "1" else None
+
 
 class PersLandscapeExact(PersLandscape):
     """Persistence Landscape Exact class.
@@ -300,6 +305,8 @@ class PersLandscapeExact(PersLandscape):
                     L[landscape_idx].extend([[d, 0], [np.inf, 0]])
                     # for duplicates, add another copy of the last computed lambda
                     for _ in range(duplicate):
+                        if _VERIF_TRACE is not None:
+                            _VERIF_TRACE.append(("repeated-bar-shortcut", landscape_idx))
                         L.append(L[-1])
                         landscape_idx += 1
 
